@@ -161,7 +161,17 @@ func (fr *Frame) stmt(st *State, s ast.Stmt) flow {
 		fr.unsupported(st, n, "branch "+n.Tok.String(), nil)
 		return flow{next: st}
 	case *ast.DeferStmt:
-		fr.defers = append(fr.defers, n.Call)
+		// registered on this path: a ghost flag guards the call when it is run at function exit
+		known := false
+		for _, d := range fr.defers {
+			if d == n.Call {
+				known = true
+			}
+		}
+		if !known {
+			fr.defers = append(fr.defers, n.Call)
+		}
+		st.ghost[deferKey(n.Call)] = Val{T: "true", S: "Bool"}
 		return flow{next: st}
 	case *ast.GoStmt:
 		fr.goStmt(st, n)
@@ -176,6 +186,32 @@ func (fr *Frame) stmt(st *State, s ast.Stmt) flow {
 	}
 	fr.unsupported(st, s, fmt.Sprintf("statement %T", s), nil)
 	return flow{next: st}
+}
+
+func deferKey(c *ast.CallExpr) string { return fmt.Sprintf("defer:%d", c.Pos()) }
+
+// runDefers executes the deferred calls registered on the paths merged into st, last first;
+// a call runs only on the paths on which its defer statement was executed.
+func (fr *Frame) runDefers(st *State) *State {
+	x := fr.x
+	for i := len(fr.defers) - 1; i >= 0; i-- {
+		c := fr.defers[i]
+		flag, ok := st.ghost[deferKey(c)]
+		if !ok || flag.T == "false" {
+			continue
+		}
+		if flag.T == "true" {
+			fr.call(st, c)
+			continue
+		}
+		yes := st.clone()
+		yes.pc = x.namePC(x.and(st.pc, flag.T))
+		no := st.clone()
+		no.pc = x.namePC(x.and(st.pc, not(flag.T)))
+		fr.call(yes, c)
+		st = x.merge([]*State{yes, no})
+	}
+	return st
 }
 
 // chanSend records a send on the ghost channel log. blocking==true marks a bare send.
